@@ -7,7 +7,7 @@
 (* upstream regression input.                                                 *)
 EXTENDS Naturals, Sequences, FiniteSets, TLC, Json
 
-CONSTANTS ParamRows, ResultRows, CRows, CResults, LuaRows, PyRows, VecRows, MaxFuncs, MaxParams
+CONSTANTS ParamRows, ResultRows, CRows, CResults, LuaRows, PyRows, VecRows, KindRows, KindResults, MaxFuncs, MaxParams
 
 VARIABLES lib, done, kind
 
